@@ -46,28 +46,44 @@ const (
 	c19NReader  = "bytes.NewReader"
 )
 
-// c19Anchors holds the role-resolved functions.
-
-// c19Anchors holds the role-resolved functions.  Only the entry points and the
-// four packers (found by the dispatch conditions) are anchors; every other unexported helper is executed in place, so the
-// rules see Pusher.Push, json.Marshal, NewDescriptorFromBytes, time.Parse …
+// c19Mode is one documented way of packing: an exported entry point plus the
+// condition under which it is selected (a manifest version, or the
+// PackImageManifest flag).  The only anchors are the two exported entry points;
+// everything unexported below them (packers, helpers, function literals,
+// dispatch tables) is executed in place, so the rules see Pusher.Push,
+// json.Marshal, NewDescriptorFromBytes, time.Parse, pattern matches …
 // themselves, however the code between them is cut into functions.
+type c19Mode struct {
+	name  string
+	entry *ssa.Function
+	key   string // fact key that selects the mode
+	val   bool   // its required value
+}
+
+// of: the path belongs to this mode.
+func (m *c19Mode) of(p *sxPath) bool {
+	v, known := p.Fact(-1, m.key)
+	return known && v == m.val
+}
+
 type c19Anchors struct {
 	packManifest, pack      *ssa.Function
-	v10, v11, rc2, artifact *ssa.Function
-	verKey, k10, k11        string
+	v10, v11, rc2, artifact *c19Mode
 	rfcPatterns             map[string]bool // pattern texts proved ≡ RFC 6838 (R6)
 }
 
-func (a *c19Anchors) inline(g *ssa.Function) bool {
-	switch g {
-	case a.v10, a.v11, a.rc2, a.artifact:
-		return false
-	}
-	return sxHelper(g)
-}
+func (a *c19Anchors) paths(fn *ssa.Function) *sxResult { return sxPathsInline(fn, "c19", sxHelper) }
 
-func (a *c19Anchors) paths(fn *ssa.Function) *sxResult { return sxPathsInline(fn, "c19", a.inline) }
+// modePaths: the feasible paths of the mode's entry point that belong to it.
+func (a *c19Anchors) modePaths(m *c19Mode) (paths []*sxPath, err string) {
+	res := a.paths(m.entry)
+	for _, p := range res.Paths {
+		if m.of(p) {
+			paths = append(paths, p)
+		}
+	}
+	return paths, res.Err
+}
 
 func c19ReachesPush(f *ssa.Function) bool {
 	return f != nil && inModule(f) && reachesCall(f, 6, func(n string, _ ssa.CallInstruction) bool { return n == c19NPush })
@@ -115,7 +131,6 @@ func c19Resolve(c *Ctx) *c19Anchors {
 		c.LostAnchor(R, "~.PackManifest / ~.Pack")
 		return nil
 	}
-	// version constants → packers
 	verConst := func(name string) string {
 		if k, ok := c.P.Obj("", name).(*types.Const); ok {
 			return "const:" + k.Val().ExactString()
@@ -133,66 +148,32 @@ func c19Resolve(c *Ctx) *c19Anchors {
 		return nil
 	}
 	ver := sxParam{a.packManifest.Params[verIdx]}
-	a.verKey, a.k10, a.k11 = ver.key(), k10, k11
-	res := sxPaths(a.packManifest)
-	if res.Err != "" {
-		c.Undecided(R, "PackManifest|paths", a.packManifest.Pos(), res.Err)
-		return nil
-	}
-	for _, p := range res.Paths {
-		for _, r := range p.Calls {
-			if !c19ReachesPush(r.Callee) {
-				continue
-			}
-			for _, f := range p.Facts[:r.NFacts] {
-				if !f.Val {
-					continue
-				}
-				switch f.Key {
-				case sxEqKeyStr(ver.key(), k10):
-					a.v10 = r.Callee
-				case sxEqKeyStr(ver.key(), k11):
-					a.v11 = r.Callee
-				}
-			}
-		}
-	}
-	// Pack: PackImageManifest true → rc2, false → artifact
 	optsIdx := c19ParamIndexByType(a.pack, func(t types.Type) bool { return c19IsNamed(t, Mod, "PackOptions") })
 	if optsIdx < 0 {
 		c.LostAnchor(R, "Pack: parameter of type PackOptions")
 		return nil
 	}
-	res = sxPaths(a.pack)
-	if res.Err != "" {
-		c.Undecided(R, "Pack|paths", a.pack.Pos(), res.Err)
+	flag, ok := sxFieldByName(sxParam{a.pack.Params[optsIdx]}, a.pack.Params[optsIdx].Type(), "PackImageManifest")
+	if !ok {
+		c.LostAnchor(R, "PackOptions.PackImageManifest")
 		return nil
 	}
-	flag, _ := sxFieldByName(sxParam{a.pack.Params[optsIdx]}, a.pack.Params[optsIdx].Type(), "PackImageManifest")
-	for _, p := range res.Paths {
-		for _, r := range p.Calls {
-			if !c19ReachesPush(r.Callee) || flag == nil {
-				continue
-			}
-			if v, ok := p.Fact(r.NFacts, flag.key()); ok {
-				if v {
-					a.rc2 = r.Callee
-				} else {
-					a.artifact = r.Callee
-				}
-			}
-		}
-	}
-	for what, f := range map[string]*ssa.Function{"1.0 packer (called by PackManifest under PackManifestVersion1_0)": a.v10,
-		"1.1 packer (called by PackManifest under PackManifestVersion1_1)": a.v11,
-		"image packer of Pack (PackImageManifest==true)":                   a.rc2,
-		"artifact packer of Pack (PackImageManifest==false)":               a.artifact} {
-		if f == nil {
-			c.LostAnchor(R, what)
+	a.v10 = &c19Mode{"~.PackManifest[1.0]", a.packManifest, sxEqKeyStr(ver.key(), k10), true}
+	a.v11 = &c19Mode{"~.PackManifest[1.1]", a.packManifest, sxEqKeyStr(ver.key(), k11), true}
+	a.rc2 = &c19Mode{"~.Pack[image]", a.pack, flag.key(), true}
+	a.artifact = &c19Mode{"~.Pack[artifact]", a.pack, flag.key(), false}
+	for _, f := range []*ssa.Function{a.packManifest, a.pack} {
+		if res := a.paths(f); res.Err != "" {
+			c.Undecided(R, FnName(f)+"|paths", f.Pos(), res.Err)
 			return nil
 		}
 	}
-
+	for _, m := range []*c19Mode{a.v10, a.v11, a.rc2, a.artifact} {
+		if ps, _ := a.modePaths(m); len(ps) == 0 {
+			c.LostAnchor(R, m.name+": no path of "+FnName(m.entry)+" is selected by its version / flag")
+			return nil
+		}
+	}
 	return a
 }
 
@@ -470,12 +451,21 @@ func c19ConfigTerms(opts sxVal, optsT types.Type) (ptr, deref, media sxVal) {
 // (package-level variable, accessor or lazily initialised; nil if unresolved).
 func c19PatternCalls(p *sxPath, x sxVal) (calls []*sxCallRec, srcs []*reSource) {
 	for _, r := range p.Calls {
-		if r.Name != "(*regexp.Regexp).MatchString" || len(r.Args) != 2 || !sxSame(r.Args[1], x) {
+		if r.Name != "(*regexp.Regexp).MatchString" || len(r.Args) == 0 || !sxSame(r.Args[len(r.Args)-1], x) {
 			continue
 		}
-		src, err := reSourceOfReceiver(r.Call.Common().Args[0], 0)
-		if err != nil {
-			src = nil
+		var recv ssa.Value
+		switch {
+		case r.RecvSSA != nil: // method value: isValid := pattern.MatchString
+			recv = r.RecvSSA
+		case len(r.Args) == 2 && len(r.Call.Common().Args) == 2:
+			recv = r.Call.Common().Args[0]
+		}
+		var src *reSource
+		if recv != nil {
+			if s, err := reSourceOfReceiver(recv, 0); err == nil {
+				src = s
+			}
 		}
 		calls = append(calls, r)
 		srcs = append(srcs, src)
@@ -519,8 +509,9 @@ func c19R1(c *Ctx, a *c19Anchors) {
 	if !okE {
 		c.LostAnchor(R1, "ocispec.MediaTypeEmptyJSON")
 	}
-	for _, P := range []*ssa.Function{a.v10, a.v11} {
-		pn := FnName(P)
+	for _, M := range []*c19Mode{a.v10, a.v11} {
+		P := M.entry
+		pn := M.name
 		opts, optsT := c19Opts(P)
 		art := c19StringParam(P)
 		if opts == nil || art == nil {
@@ -544,6 +535,9 @@ func c19R1(c *Ctx, a *c19Anchors) {
 		}
 		nPush := 0
 		for _, p := range res.Paths {
+			if !M.of(p) {
+				continue
+			}
 			if name := c19Opaque(p, a); name != "" {
 				agg.undecided(pn+"|helpers", P, nil, "the helper "+name+" reaches Pusher.Push but lies too deep to be followed (inlining depth "+fmt.Sprint(sxInlineDepth)+")")
 				continue
@@ -619,7 +613,7 @@ func c19R1(c *Ctx, a *c19Anchors) {
 							s.label, pushes[lastFlow[si]].kind, e.kind))
 					}
 				}
-				if P == a.v10 {
+				if M == a.v10 {
 					key := pn + "|" + site + "|subject-rejected"
 					if p.IsNil(r.NFacts, subjPtr) {
 						agg.ok(key, P, in, "opts.Subject == nil is established before the push")
@@ -627,7 +621,7 @@ func c19R1(c *Ctx, a *c19Anchors) {
 						agg.fail(key, P, in, p, "a push is reachable with opts.Subject set: version 1.0 has no subject field, the request must be rejected before anything is pushed")
 					}
 				}
-				if P == a.v11 && okE {
+				if M == a.v11 && okE {
 					key := pn + "|" + site + "|artifact-type-present"
 					eq, known := p.KnownEq(r.NFacts, cfgMedia, sxStr(emptyJSON))
 					if c19NonEmptyString(p, r.NFacts, art) || (p.NonNil(r.NFacts, cfgPtr) && known && !eq) {
@@ -643,39 +637,19 @@ func c19R1(c *Ctx, a *c19Anchors) {
 		}
 	}
 	agg.flush()
-	// PackManifest dispatch: unknown versions are rejected without a call
+	// PackManifest dispatch: a version that is neither 1.0 nor 1.1 is rejected without any push
 	P := a.packManifest
 	res := a.paths(P)
-	okDispatch, detail := true, "only the 1.0 and 1.1 packers are called, under their version constants; every other path returns a non-nil error without pushing"
+	okDispatch, detail := true, "a push is reachable only under PackManifestVersion1_0 or 1_1; every other path returns a non-nil error without pushing"
 	for _, p := range res.Paths {
-		called := false
-		for _, r := range p.Calls {
-			if c19IsPushCall(r) {
-				called = true
-				want := ""
-				switch r.Callee {
-				case a.v10:
-					want = sxEqKeyStr(a.verKey, a.k10)
-				case a.v11:
-					want = sxEqKeyStr(a.verKey, a.k11)
-				default:
-					okDispatch, detail = false, "PackManifest reaches a push through "+r.Name
-				}
-				if v, known := p.Fact(r.NFacts, want); want != "" && !(known && v) {
-					okDispatch, detail = false, r.Name+" is called on a path where the version is not known to be its own (an unsupported version would be packed instead of rejected)"+c19PathNote(p)
-				}
-				for i, arg := range r.Args {
-					if _, isParam := arg.(sxParam); !isParam {
-						okDispatch, detail = false, fmt.Sprintf("argument %d of %s is not a parameter of PackManifest", i, r.Name)
-					}
-				}
-			}
+		if a.v10.of(p) || a.v11.of(p) {
+			continue
 		}
-		if !called && p.Ret != nil {
-			e := p.Ret[len(p.Ret)-1]
-			if !c19NonNilErr(e) {
-				okDispatch, detail = false, "a path of PackManifest returns without packing and without a non-nil error"+c19PathNote(p)
-			}
+		if len(c19PushEvents(p)) > 0 || c19Opaque(p, a) != "" {
+			okDispatch, detail = false, "something is pushed on a path where the version is known to be neither 1.0 nor 1.1 (an unsupported version would be packed instead of rejected)"+c19PathNote(p)
+		}
+		if p.Ret != nil && !c19NonNilErr(p.Ret[len(p.Ret)-1]) {
+			okDispatch, detail = false, "a path of PackManifest for an unsupported version returns without a non-nil error"+c19PathNote(p)
 		}
 	}
 	c.Check(R1, FnName(P)+"|version-dispatch", P.Pos(), okDispatch, detail)
@@ -702,8 +676,9 @@ func c19R2(c *Ctx, a *c19Anchors) {
 		c.LostAnchor(R2, "time.RFC3339")
 		return
 	}
-	for _, P := range []*ssa.Function{a.v10, a.v11, a.rc2, a.artifact} {
-		pn := FnName(P)
+	for _, M := range []*c19Mode{a.v10, a.v11, a.rc2, a.artifact} {
+		P := M.entry
+		pn := M.name
 		opts, optsT := c19Opts(P)
 		if opts == nil {
 			c.LostAnchor(R2, pn+": options parameter")
@@ -718,6 +693,9 @@ func c19R2(c *Ctx, a *c19Anchors) {
 		key := pn + "|created-time"
 		found := false
 		for _, p := range res.Paths {
+			if !M.of(p) {
+				continue
+			}
 			if name := c19Opaque(p, a); name != "" {
 				agg.undecided(key, P, nil, "the helper "+name+" reaches Pusher.Push but lies too deep to be followed")
 				continue
@@ -779,6 +757,9 @@ func c19R2(c *Ctx, a *c19Anchors) {
 					if cl, isCall := ann.(sxCall); isCall && cl.rec.Name == "maps.Clone" && sxSame(cl.rec.Args[0], req) {
 						okCopy = true
 					}
+					if !okCopy {
+						okCopy = c19RangeCopied(p, n, ann, req)
+					}
 					for _, u := range p.Updates {
 						if u.NFacts <= n && sxSame(u.Map, ann) && sxSame(u.Key, K) {
 							fromNow, rfc := false, false
@@ -818,6 +799,45 @@ func c19R2(c *Ctx, a *c19Anchors) {
 	agg.flush()
 }
 
+// c19RangeCopied: a `for k, v := range src { dst[k] = v }` loop ran on the
+// path: every iteration taken stored its (key, value) pair into dst, and the
+// loop was left only when the iterator was exhausted.
+func c19RangeCopied(p *sxPath, n int, dst, src sxVal) bool {
+	rng := sxOp{"range", []sxVal{src}}
+	seen := false
+	for i, f := range p.Facts {
+		if i >= n {
+			break
+		}
+		ex, ok := f.Cond.(sxOp)
+		for ok && ex.op == "!" {
+			ex, ok = ex.args[0].(sxOp)
+		}
+		if !ok || ex.op != "extract#0" {
+			continue
+		}
+		next, ok := ex.args[0].(sxOp)
+		if !ok || !strings.HasPrefix(next.op, "next#") || len(next.args) != 1 || !sxSame(next.args[0], rng) {
+			continue
+		}
+		seen = true
+		if v, known := p.Fact(n, f.Key); !known || !v {
+			continue // exhausted: the loop ends here
+		}
+		k, v := sxOp{"extract#1", []sxVal{next}}, sxOp{"extract#2", []sxVal{next}}
+		stored := false
+		for _, u := range p.Updates {
+			if u.NFacts <= n && sxSame(u.Map, dst) && sxSame(u.Key, k) && sxSame(u.Val, v) {
+				stored = true
+			}
+		}
+		if !stored {
+			return false
+		}
+	}
+	return seen
+}
+
 // ---------- R3 ----------
 
 // c19PairOK checks that descriptor term d describes bytes term b.
@@ -854,8 +874,9 @@ func c19R3(c *Ctx, a *c19Anchors) {
 	const R3 = "C19.R3.descriptor-matches-bytes"
 	c.Expect(R3, 16)
 	agg := newC19Agg(c, R3)
-	for _, P := range []*ssa.Function{a.v10, a.v11, a.rc2, a.artifact} {
-		pn := FnName(P)
+	for _, M := range []*c19Mode{a.v10, a.v11, a.rc2, a.artifact} {
+		P := M.entry
+		pn := M.name
 		res := a.paths(P)
 		if res.Err != "" {
 			c.Undecided(R3, pn+"|paths", P.Pos(), res.Err)
@@ -868,6 +889,9 @@ func c19R3(c *Ctx, a *c19Anchors) {
 		}
 		pusher := sxParam{P.Params[pusherIdx]}
 		for _, p := range res.Paths {
+			if !M.of(p) {
+				continue
+			}
 			if name := c19Opaque(p, a); name != "" {
 				agg.undecided(pn+"|push-pair", P, nil, "the helper "+name+" reaches Pusher.Push but lies too deep to be followed")
 				continue
@@ -962,8 +986,9 @@ func c19R4(c *Ctx, a *c19Anchors) {
 	const R4 = "C19.R4.invented-blobs-pushed"
 	c.Expect(R4, 6)
 	agg := newC19Agg(c, R4)
-	for _, P := range []*ssa.Function{a.v10, a.v11, a.rc2} {
-		pn := FnName(P)
+	for _, M := range []*c19Mode{a.v10, a.v11, a.rc2} {
+		P := M.entry
+		pn := M.name
 		opts, optsT := c19Opts(P)
 		res := a.paths(P)
 		if res.Err != "" || opts == nil {
@@ -974,6 +999,9 @@ func c19R4(c *Ctx, a *c19Anchors) {
 		cfgPtr, cfgDeref, _ := c19ConfigTerms(opts, optsT)
 		_ = cfgPtr
 		for _, p := range res.Paths {
+			if !M.of(p) {
+				continue
+			}
 			if c19Opaque(p, a) != "" {
 				continue // reported by R1/R3
 			}
@@ -1047,8 +1075,9 @@ func c19R5(c *Ctx, a *c19Anchors) {
 		return
 	}
 	descT := c19DescType(c)
-	for _, P := range []*ssa.Function{a.v10, a.v11, a.rc2, a.artifact} {
-		pn := FnName(P)
+	for _, M := range []*c19Mode{a.v10, a.v11, a.rc2, a.artifact} {
+		P := M.entry
+		pn := M.name
 		opts, optsT := c19Opts(P)
 		art := c19StringParam(P)
 		res := a.paths(P)
@@ -1070,6 +1099,9 @@ func c19R5(c *Ctx, a *c19Anchors) {
 		cfgPtr, cfgDeref, _ := c19ConfigTerms(opts, optsT)
 		cfgAnn, _ := sxFieldByName(opts, optsT, "ConfigAnnotations")
 		for _, p := range res.Paths {
+			if !M.of(p) {
+				continue
+			}
 			if c19Opaque(p, a) != "" {
 				continue
 			}
@@ -1095,18 +1127,18 @@ func c19R5(c *Ctx, a *c19Anchors) {
 				}
 				descAT, _ := sxFieldByName(e.desc, descT, "ArtifactType")
 				wantMT := imageMT
-				if P == a.artifact {
+				if M == a.artifact {
 					wantMT = artMT
 				}
 				check("mediaType", sxSame(field("MediaType"), sxStr(wantMT)) && sxSame(descMT, sxStr(wantMT)),
 					"manifest.MediaType and the descriptor media type are "+wantMT, "manifest.MediaType / the descriptor media type is not "+wantMT)
-				if P != a.v10 {
+				if M != a.v10 {
 					check("subject", reqSubject != nil && sxSame(field("Subject"), reqSubject), "manifest.Subject = opts.Subject",
 						"manifest.Subject is not opts.Subject (got "+sxDescribe(field("Subject"))+"): the requested subject is lost")
 				}
 				// layers / blobs
 				lname := "Layers"
-				if P == a.artifact {
+				if M == a.artifact {
 					lname = "Blobs"
 				}
 				lay := field(lname)
@@ -1115,7 +1147,7 @@ func c19R5(c *Ctx, a *c19Anchors) {
 				case lay == nil:
 					check("layers", false, "", "the manifest has no "+lname+" set")
 				case sxSame(lay, reqLayers):
-					if P == a.v11 && emptyKnown {
+					if M == a.v11 && emptyKnown {
 						check("layers", false, "", "empty layers are not replaced by the empty-JSON layer in a 1.1 manifest")
 					} else {
 						check("layers", true, "manifest."+lname+" = the requested layers (non-empty where the version requires)", "")
@@ -1125,21 +1157,21 @@ func c19R5(c *Ctx, a *c19Anchors) {
 					op, isOp := lay.(sxOp)
 					isMake := isOp && strings.HasPrefix(op.op, "make:")
 					switch {
-					case P == a.v11 && isLit && len(elems) == 1 && c19IsEmptyJSON(elems[0]) && emptyKnown:
+					case M == a.v11 && isLit && len(elems) == 1 && c19IsEmptyJSON(elems[0]) && emptyKnown:
 						check("layers", true, "empty layers become the single empty-JSON layer", "")
-					case (P == a.v10 || P == a.rc2) && emptyKnown && (isLit && len(elems) == 0 || isMake):
+					case (M == a.v10 || M == a.rc2) && emptyKnown && (isLit && len(elems) == 0 || isMake):
 						check("layers", true, "nil layers become an empty array", "")
 					default:
 						check("layers", false, "", "manifest."+lname+" ("+sxDescribe(lay)+") is neither the requested layers nor the documented placeholder")
 					}
 				}
 				// config
-				if P != a.artifact {
+				if M != a.artifact {
 					cfg := field("Config")
 					switch {
 					case p.NonNil(n, cfgPtr):
 						check("config", sxSame(cfg, cfgDeref), "manifest.Config = *opts.ConfigDescriptor when given", "a given config descriptor is not what the manifest carries (got "+sxDescribe(cfg)+")")
-					case p.IsNil(n, cfgPtr) && P == a.v11:
+					case p.IsNil(n, cfgPtr) && M == a.v11:
 						an, _ := sxFieldByName(cfg, descT, "Annotations")
 						check("config", c19IsEmptyJSON(cfg) && sxSame(an, cfgAnn) && len(sxOverridden(cfg)) <= 1,
 							"without a config descriptor the empty-JSON config with opts.ConfigAnnotations is used", "the default config is not DescriptorEmptyJSON + ConfigAnnotations (got "+sxDescribe(cfg)+")")
@@ -1158,7 +1190,7 @@ func c19R5(c *Ctx, a *c19Anchors) {
 					}
 				}
 				// artifact type
-				switch P {
+				switch M {
 				case a.v11:
 					check("artifactType", sxSame(field("ArtifactType"), art) && sxSame(descAT, art), "manifest.ArtifactType and descriptor.ArtifactType = artifactType",
 						"artifactType is not what the manifest / descriptor carry")
@@ -1215,12 +1247,13 @@ func c19R6(c *Ctx, a *c19Anchors) {
 	c.Expect(R6, 1)
 	a.rfcPatterns = map[string]bool{}
 	if err := reSelfTest(); err != nil {
-		c.Undecided(R6, "engine-self-test", a.v11.Pos(), err.Error())
+		c.Undecided(R6, "engine-self-test", a.packManifest.Pos(), err.Error())
 		return
 	}
 	found := map[string]bool{}
 	var order []*reSource
-	for _, P := range []*ssa.Function{a.v10, a.v11} {
+	for _, M := range []*c19Mode{a.v10, a.v11} {
+		P := M.entry
 		opts, optsT := c19Opts(P)
 		art := c19StringParam(P)
 		if opts == nil || art == nil {
@@ -1229,6 +1262,9 @@ func c19R6(c *Ctx, a *c19Anchors) {
 		_, _, cfgMedia := c19ConfigTerms(opts, optsT)
 		res := a.paths(P)
 		for _, p := range res.Paths {
+			if !M.of(p) {
+				continue
+			}
 			for _, x := range []sxVal{art, cfgMedia} {
 				if x == nil {
 					continue
@@ -1236,7 +1272,7 @@ func c19R6(c *Ctx, a *c19Anchors) {
 				calls, srcs := c19PatternCalls(p, x)
 				for i, src := range srcs {
 					if src == nil {
-						c.Undecided(R6, FnName(P)+"|pattern", calls[i].Call.Pos(), "the media type is matched against a pattern whose text cannot be resolved: "+sxDescribe(calls[i].Args[0]))
+						c.Undecided(R6, FnName(P)+"|pattern", calls[i].Call.Pos(), "the media type is matched against a pattern whose text cannot be resolved")
 						return
 					}
 					if k := c19PatternKey(src); !found[k] {
